@@ -95,7 +95,7 @@ def replay_known(kf):
     return out
 
 
-_VS = vsock_common.component("c04_vsock_ack_ok", name="vsock_ack")
+_VS = vsock_common.component("c04_vsock_ack_ok+c04_consumed_honest_ok", name="vsock_ack")
 _VS["gen"] = _vsock_gen
 
 COMPONENTS = [_VS, {"name": "rx", "keep": 2, "gen": rxgen.gen, "gen_around": gen_around, "nontrivial": nontrivial,
